@@ -563,8 +563,8 @@ pub fn run(mut chk: Check) -> ! {
     }
     let _ = std::fs::remove_dir_all(&scratch);
     // thorough tier: coverage-guided campaigns under a 1 MiB limit (this process decodes nothing else)
-    chk.fuzz_stage("c05_datum", "fuzz_datum_c05", 400_000, 512, &crate::fuzzglue::seeds_datum(), crate::fuzzglue::case_datum_c05);
-    chk.fuzz_stage("c05_container", "fuzz_container", 200_000, 2048, &crate::fuzzglue::seeds_container(), crate::fuzzglue::case_container);
+    chk.fuzz_stage("c05_datum", "fuzz_datum_c05", 60_000, 512, &crate::fuzzglue::seeds_datum(), crate::fuzzglue::case_datum_c05);
+    chk.fuzz_stage("c05_container", "fuzz_container", 40_000, 2048, &crate::fuzzglue::seeds_container(), crate::fuzzglue::case_container);
     merged_evals += chk.evaluations;
     merged_distinct += chk.distinct.len() as u64;
     if !chk.violations.is_empty() {
